@@ -10,6 +10,7 @@
 #include <limits>
 #include <memory>
 #include <set>
+#include <sstream>
 
 #include <bxdecay0/bb_utils.h>
 #include <bxdecay0/decay0_generator.h>
@@ -323,6 +324,21 @@ int main(int argc, char ** argv)
           std::string d2 = getters_diff(*G, fm);
           if (!d2.empty()) fail("reset-not-fresh", s, d2);
           if (!(G->get_to_all_events() == fresh.get_to_all_events())) fail("reset-not-fresh", s, "get_to_all_events differs from a fresh object");
+          {
+            // get_bb_params() is a getter too: the double-beta working data of a reset generator equal those of a new one
+            const bxdecay0::bbpars & a = G->get_bb_params();
+            const bxdecay0::bbpars & b = fresh.get_bb_params();
+            long d1 = 0, d2 = 0;
+            for (size_t i = 0; i < bxdecay0::bbpars::SPSIZE; i++) {
+              if (!same_bits(a.spthe1[i], b.spthe1[i])) d1++;
+              if (!same_bits(a.spthe2[i], b.spthe2[i])) d2++;
+            }
+            std::ostringstream da, db;
+            a.dump(da, "");
+            b.dump(db, "");
+            if (d1 || d2 || da.str() != db.str())
+              fail("reset-not-fresh", s, fmt("get_bb_params() of the reset object differs from a new one: spthe1 in %ld bins, spthe2 in %ld bins, scalar members %s", d1, d2, da.str() == db.str() ? "equal" : "differ"));
+          }
           if ((before.has_min || before.has_max || before.nops || before.init) && (int)(hash_str(before.key()) % (uint64_t)pshards) == pshard) {
             probes++;
             // behavioural freshness, not through the getters: the same partial configuration (no window, no operation) applied to
